@@ -146,9 +146,22 @@ def run_family(ctx, which, salt, rule):
     thorough = ctx.tier == "thorough"
     rnd = random.Random(ctx.seed * 9973 + salt)
     scs = families(ctx, rnd, thorough, which)
-    results = se.run_all(ctx, scs, "lx")
-    ctx.traces = len(results)
-    se.report(ctx, results, keyfn)
+    import os
+    if os.environ.get("VERIF_AUDIT") and os.environ.get("VERIF_AUDIT_FAST"):
+        # mutation audit only: the light families first, the heavy window sessions only if nothing was reported yet
+        light = [s for s in scs if not s["family"].startswith("logix-window")]
+        heavy = [s for s in scs if s["family"].startswith("logix-window")]
+        results = se.run_all(ctx, light, "lx") if light else []
+        se.report(ctx, results, keyfn)
+        if not ctx.viol and heavy:
+            r2 = se.run_all(ctx, heavy, "lx")
+            se.report(ctx, r2, keyfn)
+            results += r2
+        ctx.traces = len(results)
+    else:
+        results = se.run_all(ctx, scs, "lx")
+        ctx.traces = len(results)
+        se.report(ctx, results, keyfn)
     n = 0
     for s in scs:
         for c in s["calls"]:
